@@ -426,6 +426,21 @@ func c20Check(x *core.Ctx, c *core.Case) {
 			c20Error(x, "validate", e, []string{"request.graphql"}, true)
 		}
 		c20List(x, "validate", errs)
+		// the same after a registered rule was replaced (by itself) in the global rule set: errors must still name their rule
+		if len(errs) > 0 {
+			ri := int(core.HashString(c.Get("doc")) % uint64(len(c18Standard)))
+			rule := c18Standard[ri]
+			validator.ReplaceRule(rule.Name, rule.RuleFunc)
+			doc2, _ := parser.ParseQuery(&ast.Source{Name: "request.graphql", Input: c.Get("doc")})
+			errs2 := validator.Validate(schema, doc2)
+			x.Count("replace_rule_sequences")
+			for _, e := range errs2 {
+				c20Error(x, "validate-after-ReplaceRule", e, []string{"request.graphql"}, true)
+			}
+			if serializeErrs(errs2) != serializeErrs(errs) {
+				x.Violate("validate-after-ReplaceRule:differs", serializeErrs(errs2), serializeErrs(errs))
+			}
+		}
 	case "variables":
 		schema, err := gqlparser.LoadSchema(&ast.Source{Name: "c14.graphql", Input: c14Schema})
 		if err != nil {
